@@ -4,7 +4,10 @@ use super::{Context, LintRule};
 use crate::handler::{Handler, Traverse};
 use crate::tags::{self, Tags};
 use crate::Program;
-use deno_ast::view::{ArrowExpr, BlockStmt, Constructor, Function, SwitchStmt};
+use deno_ast::view::{
+  ArrowExpr, BlockStmt, Constructor, Function, GetterProp, SetterProp,
+  SwitchStmt,
+};
 use deno_ast::{SourceRanged, SourceRangedForSpanned};
 
 #[derive(Debug)]
@@ -37,11 +40,13 @@ impl Handler for NoEmptyHandler {
     // Empty functions shouldn't be caught by this rule.
     // Because function's body is a block statement, we're gonna
     // manually visit each member; otherwise rule would produce errors
-    // for empty function or arrow body or constructor.
+    // for empty function or arrow body or constructor or object accessor.
     if block_stmt.stmts.is_empty()
       && !block_stmt.parent().is::<Function>()
       && !block_stmt.parent().is::<ArrowExpr>()
       && !block_stmt.parent().is::<Constructor>()
+      && !block_stmt.parent().is::<GetterProp>()
+      && !block_stmt.parent().is::<SetterProp>()
       && !block_stmt.contains_comments(ctx)
     {
       ctx.add_diagnostic_with_hint(
